@@ -33,4 +33,12 @@ def run(tier):
         cr.bounded_check(run_template_scope, f"template-lemmas-{'opt' if optimize else 'noopt'}", "history", progs,
                          f"{len(progs)} programs: cover + base + step lemmas (history) / round-trip lemma (iteration) by SMT over the S2 tick function; optimize={optimize}",
                          cr.known, optimize=optimize)
+    from contracts import c02 as _c02
+    from bounded.contract_enum import run_contract_enum as _rce
+    from bounded import pipeline as _pl
+    _pl.ensure_repo()
+    largs = _c02.locked_colors_arg_sets()
+    cr.bounded_check(_rce, "locked-wire-colours-box", _c02.locked_colors, largs,
+                     f"{len(largs)} plans: every subset of (gated cell, folded cell, bundle OP signal, each CMP signal, gate over a merged bundle): the cell's gates and data on red, "
+                     "the write enable on green, the folded cell's feedback on red (contract evaluated on the real LayoutPlanner._determine_locked_wire_colors)")
     return cr.finish()
